@@ -127,6 +127,9 @@ impl Vm {
     self.fiber = fiber;
     self.fiber.activate();
 
+    #[cfg(feature = "verif")]
+    self.verif_sched_event("switch", 0);
+
     self.load_ip();
     self.current_fun = fiber.fun();
   }
@@ -176,9 +179,13 @@ impl Vm {
       },
       FiberPopResult::Emptied => {
         if self.fiber == self.main_fiber {
+          #[cfg(feature = "verif")]
+          self.verif_sched_event("exit", self.exit_code as i64);
           Some(ExecutionSignal::Exit)
         } else {
           // attempt to grab waiter and enqueue next fiber
+          #[cfg(feature = "verif")]
+          self.verif_sched_event("complete", 0);
           if let Some(waiter) = self.fiber.complete() {
             self.queue_blocked_fiber(waiter);
           }
@@ -196,6 +203,14 @@ impl Vm {
     match waiter.get_waiter_mut::<Ref<Fiber>>() {
       Some(fiber) => {
         fiber.unblock();
+        #[cfg(feature = "verif")]
+        if laythe_core::verif::wants(laythe_core::verif::SCHED) {
+          let queued = laythe_core::verif::id(laythe_core::verif::K_FIBER, fiber.to_usize());
+          laythe_core::verif::emit(
+            laythe_core::verif::SCHED,
+            format!("{{\"ev\":\"queue\",\"t\":{queued}}}"),
+          );
+        }
         self.fiber_queue.push_back(*fiber)
       },
       None => self.internal_error("Unable to find fiber"),
